@@ -46,7 +46,9 @@ def run(rep):
         for key, items in found.items():
             rep.violation(key, items[0][0] + " (+%d more)" % (len(items) - 1), items[0][1], items[0][2])
         if not found:
-            c01.confirm(rep, results)
+            c01.confirm_jd(rep, results)
+        if not found and not rep.violations:
+            c01.confirm(rep, [x for x in results if not x["name"].startswith("JulianDay")])
     rep.samples = [{"obligation": o["name"], "status": o["status"], "paths": o.get("paths")} for o in rep.obligations]
 
 
